@@ -42,6 +42,15 @@ def spec_mutants(work):
         violated = "Invariant NetBounds is violated" in out
         print("design-level F11 %-20s NetBounds violated=%s expected=%s" % (cfg, violated, expect))
         ok = ok and (violated == expect)
+    # pagination sessions interleaved with insertions: a session that feeds back a wrong token must be caught
+    src = os.path.join(VERIF, "spec", "mc", "pag")
+    for cfg, inv in (("MC_pag_stale.cfg", "NoRepeat"), ("MC_pag_ahead.cfg", "NothingSkipped")):
+        wd = os.path.join(work, cfg)
+        shutil.copytree(src, wd)
+        rc, out, wall = runner.tlc(wd, "MC_pag", cfg=cfg, workers="8")
+        violated = ("Invariant %s is violated" % inv) in out
+        print("session mutant %-18s %s violated=%s expected=True" % (cfg, inv, violated))
+        ok = ok and violated
     return ok
 
 
